@@ -595,9 +595,40 @@ Proof.
         intros x Hx Hx2. simpl in Hx2. apply elem_of_list_singleton in Hx2. subst x. by apply (has_rec_false _ _ Hh).
       * intros c Hc. apply elem_of_app in Hc as [Hc|Hc]; [by apply Hk|].
         apply elem_of_list_singleton in Hc. by subst c.
-  - split; [by rewrite upd_rec_addr|by apply upd_rec_keyed].
+  - destruct (existsb _ t); [done|]. split; [by rewrite upd_rec_addr|by apply upd_rec_keyed].
   - split; [by rewrite upd_rec_addr|by apply upd_rec_keyed].
   - split; [by apply NoDup_map_filter|]. intros c Hc. apply filter_In_elem in Hc as [Hc _]. by apply Hk.
+Qed.
+
+(* no record operation of the handlers makes a stake negative (the handlers refuse negative
+   amounts since /repo 48c76fc, HandleUnstake refuses a negative result since e681066) *)
+Definition op_nonneg (o : recop) : Prop :=
+  match o with RStake _ _ amt => 0 <= amt | RRewrite _ st => 0 <= st | _ => True end.
+Definition stakes_nonneg (t : list cand) : Prop := forall c, c ∈ t -> 0 <= c_stake c.
+
+Lemma rec_step_nonneg t o : op_nonneg o -> stakes_nonneg t -> stakes_nonneg (rec_step t o).
+Proof.
+  intros Ho Ht. destruct o as [a pk amt|a amt|a st|a]; simpl in *.
+  - destruct (negb (N.eqb a pk)); [done|]. destruct (has_rec a t).
+    + intros c Hc. unfold upd_rec in Hc. apply elem_of_map_iff in Hc as (d & -> & Hd).
+      specialize (Ht d Hd). destruct (N.eqb (c_addr d) a); simpl; lia.
+    + intros c Hc. apply elem_of_app in Hc as [Hc|Hc]; [by apply Ht|].
+      apply elem_of_list_singleton in Hc. by subst c.
+  - destruct (existsb _ t) eqn:E; [done|].
+    intros c Hc. unfold upd_rec in Hc. apply elem_of_map_iff in Hc as (d & -> & Hd).
+    destruct (N.eqb (c_addr d) a) eqn:Ea; simpl; [|by apply Ht].
+    destruct (c_stake d - amt <? 0) eqn:El; [|apply Z.ltb_ge in El; lia].
+    exfalso. assert (existsb (fun c => N.eqb (c_addr c) a && (c_stake c - amt <? 0)) t = true); [|congruence].
+    apply existsb_exists. exists d. split; [by apply elem_of_list_In|by rewrite Ea, El].
+  - intros c Hc. unfold upd_rec in Hc. apply elem_of_map_iff in Hc as (d & -> & Hd).
+    destruct (N.eqb (c_addr d) a); simpl; [lia|by apply Ht].
+  - intros c Hc. apply filter_In_elem in Hc as [Hc _]. by apply Ht.
+Qed.
+
+Lemma rec_run_nonneg ops : forall t, Forall op_nonneg ops -> stakes_nonneg t -> stakes_nonneg (rec_run t ops).
+Proof.
+  unfold rec_run. induction ops as [|o ops IH]; simpl; intros t Ho Ht; [done|].
+  apply Forall_cons in Ho as [Ho Hos]. apply IH; [done|]. by apply rec_step_nonneg.
 Qed.
 
 Lemma rec_run_ok ops : forall t, table_ok t -> table_ok (rec_run t ops).
